@@ -191,7 +191,11 @@ func (s *shardNodeReader) Seek(offset int64, whence int) (int64, error) {
 	case io.SeekCurrent:
 		s.offset += offset
 	case io.SeekEnd:
-		s.offset = s.length() + offset
+		length, err := s.length()
+		if err != nil {
+			return 0, err
+		}
+		s.offset = length + offset
 	}
 	if s.offset < 0 {
 		// a failed seek leaves the position where it was
@@ -201,7 +205,7 @@ func (s *shardNodeReader) Seek(offset int64, whence int) (int64, error) {
 	return s.offset, nil
 }
 
-func (s *shardNodeFile) length() int64 {
+func (s *shardNodeFile) length() (int64, error) {
 	// see if we have size specified in the unixfs data. errors fall back to length from links
 	nodeData, err := s.unpack()
 	if err != nil || nodeData == nil {
@@ -209,32 +213,35 @@ func (s *shardNodeFile) length() int64 {
 	}
 	if nodeData.FileSize.Exists() {
 		if fs, err := nodeData.FileSize.Must().AsInt(); err == nil {
-			return int64(fs)
+			return int64(fs), nil
 		}
 	}
 
 	return s.lengthFromLinks()
 }
 
-func (s *shardNodeFile) lengthFromLinks() int64 {
+// lengthFromLinks sums the sizes of the children. A child that has to be
+// opened to learn its size and cannot be loaded is an error, not a child of
+// size zero.
+func (s *shardNodeFile) lengthFromLinks() (int64, error) {
 	links, err := s.substrate.LookupByString("Links")
 	if err != nil {
-		return 0
+		return 0, err
 	}
 	size := int64(0)
 	li := links.ListIterator()
 	for !li.Done() {
 		idx, l, err := li.Next()
 		if err != nil {
-			return 0
+			return 0, err
 		}
 		ll, _, err := s.linkSize(l, int(idx))
 		if err != nil {
-			return 0
+			return 0, err
 		}
 		size += ll
 	}
-	return size
+	return size, nil
 }
 
 func (s *shardNodeFile) AsLargeBytes() (io.ReadSeeker, error) {
